@@ -330,7 +330,7 @@ Section Phases.
     let '(s, stop) := sb in
     if stop then sb else
     let '(accused, key) := a in
-    if N.eqb (me s) accused || negb (in_group accused) then (dq_discard accuser s, false) else
+    if N.eqb (me s) accused || N.eqb accuser accused || negb (in_group accused) then (dq_discard accuser s, false) else
     match find_pub s accuser accused with
     | None => (fail s, true)
     | Some apk =>
@@ -381,11 +381,16 @@ Section Phases.
     (s, [PAccuse (me s) (csess c) acc]).
 
   (* ----- phase 9: MarkInactiveMembers + ResolvePublicKeySharePointsAccusationsMessages ----- *)
+  (* the accused is disqualified by a resolved points accusation: its points are dropped
+     from receivedValidPeerPublicKeySharePoints (fix commit for C01-a), so that every member
+     expects its individual key to be reconstructed *)
+  Definition dq_drop_pts (m : N) (s : mstate) : mstate :=
+    set_validPts (remove m (validPts s)) (mark_dq m s).
   Definition resolve9 (accuser : N) (sb : mstate * bool) (a : N * ekey) : mstate * bool :=
     let '(s, stop) := sb in
     if stop then sb else
     let '(accused, key) := a in
-    if N.eqb (me s) accused || negb (in_group accused) then (mark_dq accuser s, false) else
+    if N.eqb (me s) accused || N.eqb accuser accused || negb (in_group accused) then (mark_dq accuser s, false) else
     match find_pub s accuser accused with
     | None => (fail s, true)
     | Some apk =>
@@ -397,11 +402,11 @@ Section Phases.
             | None => (mark_dq accuser s, false)
             | Some sh =>
                 match decrypt sh accuser (ecdh key dpk) with
-                | None => (mark_dq accused (mark_dq accuser s), false)
+                | None => (dq_drop_pts accused (mark_dq accuser s), false)
                 | Some (vs, _) =>
                     let ps := match lookup accused (validPts s) with Some l => l | None => [] end in
                     if valid_g2 Q accuser vs ps then (mark_dq accuser s, false)
-                    else (mark_dq accused s, false)
+                    else (dq_drop_pts accused s, false)
                 end
             end
         end
